@@ -121,6 +121,9 @@ class ExpectationMaximization(ParameterEstimator):
         n_counts = (
             self.data.groupby(list(self.data.columns), observed=True).size().to_dict()
         )
+        if len(self.data.columns) == 1:
+            # Grouping by a single column gives scalar keys; rows are looked up by tuple.
+            n_counts = {(key,): value for key, value in n_counts.items()}
 
         cache = Parallel(n_jobs=n_jobs)(
             delayed(self._parallel_compute_weights)(
